@@ -118,7 +118,8 @@ def run_one(rng, counters):
             "qual_mode": rng.choice(["const", "random"]),
             "companions": rng.choice([0.0, 0.0, 0.4, 0.8]),
             # with a reference two neighbouring indels have no unique representation; CIGAR-based detection has no such excuse
-            "companion_kinds": ("snv",) if use_ref else ("snv", "ins", "del"),
+            "companion_kinds": (("snv",) if rng.random() < 0.7 else ("snv", "ins", "del", "mnp")) if use_ref else ("snv", "ins", "del"),
+            "companion_max_len": rng.choice([6, 6, 13]),
         }
         sim = genome.simulate(rng, tmp, p)
         desc = {"params": p, "use_ref": use_ref}
@@ -148,7 +149,8 @@ def run_one(rng, counters):
         vis = [(i, v) for i, v in enumerate(sim.variants[c]) if i not in sim.hidden[c]]
         allv = sim.variants[c]
         # visible variants with an unrelated hidden indel within 16 bases: re-alignment may legitimately tie there
-        crowded = {i for i, v in vis if any(w.hid and abs(w.pos - v.pos) <= 16 for w in allv[max(0, i - 2) : i + 3])}
+        # (window = footprint extended by the shift range and the 10 bp overhang; two spare bases)
+        crowded = {i for i, v in vis if any(w.hid and w.end + w.shift >= v.pos - 12 and w.pos <= v.end + v.shift + 12 for w in allv[max(0, i - 2) : i + 3])}
         viol = []
         keys = set()
         for name, parts in frags.items():
@@ -183,7 +185,10 @@ def run_one(rng, counters):
                         elif use_ref and not partial:
                             viol.append({"mech": "missing-allele:" + v.kind, "msg": "fragment %s (alignments %r) fully covers %s %r (truth allele %d) but no allele was recorded (with reference)" % (name, [(pt["start"], pt["cigar"]) for pt in parts], v.kind, v.as_list(), truth)})
                     elif r_[0] != truth:
-                        viol.append({"mech": "wrong-allele:" + v.kind + (":noref" if not use_ref else "") + (":partial-mate" if partial else ""),
+                        # with a reference, an unrelated indel inside the re-alignment window of an indel/MNP variant can make the other
+                        # allele the closer one in edit distance (a limit of the method, recorded as a known finding)
+                        crowd = ":unrelated-indel-in-realignment-window" if (use_ref and i in crowded and v.kind != "snv") else ""
+                        viol.append({"mech": ("wrong-allele:" + v.kind + crowd) if crowd else "wrong-allele:" + v.kind + (":noref" if not use_ref else "") + (":partial-mate" if partial else ""),
                                      "msg": "fragment %s (alignments %r) is an exact copy of haplotype %d and fully covers %s %r: recorded allele %r, truth %d" % (name, [(pt["start"], pt["cigar"]) for pt in parts], h, v.kind, v.as_list(), r_, truth)})
                     else:
                         counters["pairs_correct"] = counters.get("pairs_correct", 0) + 1
